@@ -1,1 +1,19 @@
-/-! Property theorems for C14 (none yet). -/
+import MirVerif.Gen.C14_TypeSize
+import MirVerif.Props.C14.Load
+import MirVerif.Props.C14.Link
+/-!
+# C14 — loaded data items form contiguous, correctly initialised sections
+
+* `Props/C14/Load.lean`: placements (`contiguous`, `maximal`, `in_bounds`, `sizes_agree`, `image_*`)
+  after `MIR_load_module`;
+* `Props/C14/Link.lean`: `ref`/`expr` slots after `MIR_link`, data/bss unchanged by it;
+* here: the bridge between the table extracted from the current `mir.c` and the sizes the model uses.
+-/
+
+namespace MirVerif.Section
+
+/-- **bridge** (T1): the switch table of `_MIR_type_size` in the current source, as extracted on this
+run by `translate/c14_typesize.py`, is the table the model uses (`Ty.size`). -/
+theorem type_size_table_bridge : MirVerif.Gen.C14.typeSizeRows = canonTypeSizes := by decide
+
+end MirVerif.Section
